@@ -287,7 +287,11 @@ func values(r *hx.Run, thorough bool) [][]byte {
 	fixed := []string{"", "x\r\nX-Injected: 1", "x\nX-Injected: 1", "x\rX-Injected: 1", "x\r\n\r\nbody", "a\x00b", "=?utf-8?q?a?=",
 		"na\xc3\xafve r\xc3\xa9sum\xc3\xa9", "\xff\xfe invalid utf8", "tab\there", "  leading and trailing  ", "a;b=c\"d\\e", "quote\"inside",
 		strings.Repeat("w", 80), strings.Repeat("long word ", 30), strings.Repeat("\xc3\xa4", 70), strings.Repeat("\xe2\x82\xac", 40),
-		"c\r\nX: 2", "<id@host>", "caf\xc3\xa9 \r\n folded", "\r\n", "\r", "\n", "a\r\n b"}
+		"c\r\nX: 2", "<id@host>", "caf\xc3\xa9 \r\n folded", "\r\n", "\r", "\n", "a\r\n b",
+		// long runs of blanks: whitespace-only continuation lines must not turn into empty lines
+		"Hello" + strings.Repeat(" ", 74) + "world", "Hello" + strings.Repeat(" ", 75) + "world", "Hello" + strings.Repeat(" ", 76) + "world",
+		"a " + strings.Repeat(" ", 90) + "b", strings.Repeat(" ", 80), "x" + strings.Repeat(" ", 160) + "y", "tab" + strings.Repeat("\t", 80) + "end",
+		strings.Repeat("w", 72) + "  " + strings.Repeat("v", 71), strings.Repeat("w", 72) + strings.Repeat(" ", 5) + strings.Repeat("v", 71)}
 	for _, f := range fixed {
 		vs = append(vs, []byte(f))
 	}
@@ -314,6 +318,11 @@ func values(r *hx.Run, thorough bool) [][]byte {
 		}
 		if r.Rng.Intn(3) == 0 {
 			b = bytes.ToValidUTF8(b, []byte("\xc3\xa9"))
+		}
+		if r.Rng.Intn(4) == 0 && l > 2 {
+			// a long run of blanks somewhere inside
+			k := r.Rng.Intn(l)
+			b = append(append(append([]byte(nil), b[:k]...), bytes.Repeat([]byte(" "), 60+r.Rng.Intn(60))...), b[k:]...)
 		}
 		vs = append(vs, b)
 	}
